@@ -223,6 +223,36 @@ def run_c12(run, scratch, seed, tier):
         run.violation({"suite": "scheduler_enumeration", "case": c, "call": pos, "impl": a, "property": b},
                       "scheduler %s returns %s on call %d where the property requires %s (dates %s)"
                       % (c["algo"], a, pos, b, c["dates"]))
+    # "... and never on a date outside the data": RunPeriod as a function of the timestamp target.now
+    oc = S.periodat_cases(rng, 400 if tier == "quick" else 6000)
+    ores = S.run_periodat(scratch, oc)
+    obad = [(c, i, m) for c, i, m in ores if i != m]
+    off_true = []
+    n_off = 0
+    for c, i, m in ores:
+        inside = set(c["dates"])
+        for z, tok in zip(c["stamps"], i or []):
+            if z not in inside:
+                n_off += 1
+                if tok != "F":
+                    off_true.append((c, z, tok))
+    run.add_suite("off_index_dates", {
+        "evaluations": sum(len(c["stamps"]) for c in oc), "distinct_nontrivial": len({json.dumps(c) for c in oc}),
+        "traces_validated_against_impl": len(ores) - len(obad), "disagreements": len(obad),
+        "off_index_stamps": n_off, "off_index_answers_not_false": len(off_true),
+        "rule": "RunDaily..RunYearly asked about every date of a generated index (pool subsets, business-day and gappy "
+                "calendars) and about stamps off it: before the data, inside gaps (weekends, holidays), intraday on "
+                "index days, after the last date; implementation == Algos.run_period_at, and off-index answers are False",
+        "samples": oc[:1]})
+    if obad:
+        c, i, m = obad[0]
+        run.violation({"suite": "off_index_dates", "case": c, "impl": i, "model": m, "n_disagreeing": len(obad),
+                       "broken": "correspondence of Algos.run_period_at with RunPeriod.__call__"},
+                      "scheduler %s on dates %s asked about stamps %s: implementation %s, model %s"
+                      % (c["algo"], c["dates"], c["stamps"], i, m))
+    for c, z, tok in off_true[:2]:
+        run.violation({"suite": "off_index_dates", "case": c, "stamp": z, "impl": tok, "property": "F"},
+                      "scheduler %s answers %s for %d, which is not a date of the data %s" % (c["algo"], tok, z, c["dates"]))
 
 
 PROPS["C12"] = {"props_file": "C12.v", "run": run_c12}
